@@ -412,6 +412,8 @@ pub fn reply_val(probe: usize, sender: u32, seq: u32) -> u64 {
 pub struct Probe {
     pub idx: usize,
     pub got: GotLog,
+    /// a group the actor joins from its own pre_start (the usual ractor pattern)
+    pub pre_join: Option<String>,
 }
 
 pub struct ProbeSt {
@@ -423,7 +425,10 @@ impl Actor for Probe {
     type Msg = ProbeMsg;
     type State = ProbeSt;
     type Arguments = ();
-    async fn pre_start(&self, _m: ActorRef<ProbeMsg>, _a: ()) -> Result<ProbeSt, ActorProcessingErr> {
+    async fn pre_start(&self, m: ActorRef<ProbeMsg>, _a: ()) -> Result<ProbeSt, ActorProcessingErr> {
+        if let Some(g) = &self.pre_join {
+            ractor::pg::join(g.clone(), vec![m.get_cell()]);
+        }
         Ok(ProbeSt { held: vec![] })
     }
     async fn handle(&self, _m: ActorRef<ProbeMsg>, msg: ProbeMsg, st: &mut ProbeSt) -> Result<(), ActorProcessingErr> {
